@@ -396,6 +396,9 @@ func (c *Ctx) genC17() {
 			w.abs[tam["saml_"+f.index]] = func() jwtToken { t := w.abstractOf(f.cookie); t.macKey = ""; t.raw = tam["saml_"+f.index]; return t }()
 			w.deliver(f.id, true, tam, f.index, "tampered-cookie")
 			w.deliver("id-foreign", true, copyJar(w.jar), f.index, "foreign-inresponseto")
+			// an unsolicited response (no InResponseTo anywhere) while requests are outstanding: "" is not an outstanding ID
+			w.deliver("", true, copyJar(w.jar), f.index, "unsolicited-no-inresponseto")
+			w.deliver("", true, copyJar(w.jar), "", "unsolicited-no-inresponseto-no-relay")
 			w.deliver(f.id, false, copyJar(w.jar), f.index, "invalid-response")
 			w.deliver(f.id, true, copyJar(w.jar), "", "no-relay")
 			w.deliver(f.id, true, copyJar(w.jar), "https://evil.example.org/", "relay-is-a-url")
